@@ -6,10 +6,10 @@
 // builds inside one process (Go randomises every map `range`) and across processes (different hash
 // seed per process).
 //
-//	c27 multi <N>      stdin: one "<kind> <path> [virtual-name]" per line (kind: file | dir)
+//	c27 multi <N>      stdin: one "<kind> <path> [virtual-name] [cfg=<spec>]" per line (kind: file | dir; spec: see buildCfg)
 //	                   builds each N times in this process;  stdout per line:
-//	                     same <sha256 wat> <sha256 wasm> <wat bytes> <wasm bytes>
-//	                     DIFF <what: wat|wasm|status> <build index> <first differing line no> <hex line in build 0> <hex line in build i>
+//	                     same <sha256 wat> <sha256 wasm> <sha256 aux artefacts> <wat bytes> <wasm bytes>
+//	                     DIFF <what: wat|wasm|aux|status> <build index> <first differing line no> <hex line in build 0> <hex line in build i>
 //	                     err <kind>                  (every build failed the same way; kind: load | wat2wasm | panic)
 //	c27 members <K>    stdin: one "<path>" per line -> K real iteration orders of the main package's member map + WAT emission order
 //	c27 dump <kind> <path> <out-prefix> [virtual-name]   one build, writes <out-prefix>.wat / .wasm (for the report of a cross-process difference)
@@ -31,25 +31,70 @@ import (
 	"wa-lang.org/wa/api"
 	"wa-lang.org/wa/internal/backends/compiler_wat"
 	"wa-lang.org/wa/internal/backends/compiler_wat/wir"
+	"wa-lang.org/wa/internal/config"
 	"wa-lang.org/wa/internal/ssa"
 	"wa-lang.org/wa/internal/wat/watutil"
+	"wa-lang.org/wa/internal/wat/watutil/wat2c"
+	"wa-lang.org/wa/internal/wat/watutil/watstrip"
 	"wa-lang.org/wa/internal/zz_verif/vh"
 )
 
 type built struct {
-	status string // ok | load | wat2wasm | panic
+	status string // ok | load | strip | wat2wasm | wat2c | panic
 	msg    string
 	wat    []byte
 	wasm   []byte
+	aux    []byte // further artefacts of the configuration: wat2c code + header, JS binding + index.html
 }
 
-func buildOnce(kind, path, vname string) (b built) {
+// buildCfg: the build configurations the `wa build` tool offers that change the pipeline (internal/app/appbuild):
+//
+//	os:<target>   --target js | wasm4 | arduino | unknown | …  (base WAT, stack size, #wa:build selection, host imports)
+//	O             -O / optimize: the WAT goes through watstrip.WatStrip (dead-function removal) before wat2wasm;
+//	              directories whose target is wasm4 or arduino are ALWAYS stripped (as appbuild does)
+//	c             wat2c (arduino / --wat2c-native): watutil.Wat2C code + header are artefacts too
+//	jsb           js target: compiler.GenJSBinding + GenIndexHtml are artefacts too
+//
+// spec "" = the default configuration through the public api.BuildFile (what `api.RunCode` and the playground use).
+type buildCfg struct {
+	os       string
+	optimize bool
+	wat2c    bool
+	jsbind   bool
+	any      bool
+}
+
+func parseCfg(spec string) (c buildCfg) {
+	for _, t := range strings.Split(spec, ",") {
+		switch {
+		case t == "":
+		case t == "O":
+			c.optimize, c.any = true, true
+		case t == "c":
+			c.wat2c, c.any = true, true
+		case t == "jsb":
+			c.jsbind, c.any = true, true
+		case strings.HasPrefix(t, "os:"):
+			c.os, c.any = t[3:], true
+		}
+	}
+	return
+}
+
+func buildOnce(kind, path, vname, spec string) (b built) {
 	defer func() {
 		if r := recover(); r != nil {
 			b = built{status: "panic", msg: fmt.Sprint(r)}
 		}
 	}()
+	bc := parseCfg(spec)
+	cfg := api.DefaultConfig()
+	if bc.os != "" {
+		cfg.TargetOS = bc.os
+	}
 	var wat []byte
+	var comp *compiler_wat.Compiler
+	strip := bc.optimize
 	switch kind {
 	case "file":
 		src, err := os.ReadFile(path)
@@ -59,30 +104,85 @@ func buildOnce(kind, path, vname string) (b built) {
 		if vname == "" {
 			vname = filepath.Base(path)
 		}
-		_, w, _, err := api.BuildFile(api.DefaultConfig(), vname, string(src))
-		if err != nil {
-			return built{status: "load", msg: err.Error()}
+		if !bc.any {
+			_, w, _, err := api.BuildFile(cfg, vname, string(src))
+			if err != nil {
+				return built{status: "load", msg: err.Error()}
+			}
+			wat = w
+		} else {
+			prog, err := api.LoadProgramFile(cfg, vname, string(src))
+			if err != nil || prog == nil {
+				return built{status: "load", msg: fmt.Sprint(err)}
+			}
+			comp = compiler_wat.New()
+			w, err := comp.Compile(prog)
+			if err != nil {
+				return built{status: "load", msg: err.Error()}
+			}
+			wat = []byte(w)
 		}
-		wat = w
 	case "dir":
-		prog, err := api.LoadProgram(api.DefaultConfig(), path)
+		prog, err := api.LoadProgram(cfg, path)
 		if err != nil || prog == nil {
 			return built{status: "load", msg: fmt.Sprint(err)}
 		}
-		w, err := compiler_wat.New().Compile(prog)
+		comp = compiler_wat.New()
+		w, err := comp.Compile(prog)
 		if err != nil {
 			return built{status: "load", msg: err.Error()}
 		}
 		wat = []byte(w)
 		vname = filepath.Base(path)
+		if bc.any {
+			if t := prog.Manifest.Pkg.TargetOS; t == config.WaOS_wasm4 || t == config.WaOS_arduino {
+				strip = true
+			}
+		}
 	default:
 		return built{status: "load", msg: "bad kind"}
+	}
+	if strip {
+		w, err := watstrip.WatStrip(vname, wat)
+		if err != nil {
+			return built{status: "strip", msg: err.Error(), wat: wat}
+		}
+		wat = w
+	}
+	var aux []byte
+	if bc.jsbind && comp != nil {
+		aux = append(aux, comp.GenJSBinding(vname+".wasm")...)
+		aux = append(aux, 0)
+		aux = append(aux, comp.GenIndexHtml(vname+".js")...)
+		aux = append(aux, 0)
 	}
 	bin, err := watutil.Wat2Wasm(vname, wat)
 	if err != nil {
 		return built{status: "wat2wasm", msg: err.Error(), wat: wat}
 	}
-	return built{status: "ok", wat: wat, wasm: bin}
+	if bc.wat2c {
+		_, code, header, err := watutil.Wat2C(vname+".wat", wat, wat2c.Options{Prefix: "app"})
+		if err != nil {
+			return built{status: "wat2c", msg: err.Error(), wat: wat, wasm: bin}
+		}
+		aux = append(aux, code...)
+		aux = append(aux, 0)
+		aux = append(aux, header...)
+	}
+	return built{status: "ok", wat: wat, wasm: bin, aux: aux}
+}
+
+// splitLine: "<kind> <path> [virtual-name] [cfg=<spec>]"
+func splitLine(f []string) (kind, path, vname, spec string) {
+	kind, path = f[0], f[1]
+	for _, t := range f[2:] {
+		if strings.HasPrefix(t, "cfg=") {
+			spec = t[4:]
+		} else {
+			vname = t
+		}
+	}
+	return
 }
 
 // lineLoop: like vh.Loop, but flushes after EVERY line: the compiler may end the process (logger.Fatal =
@@ -216,13 +316,18 @@ func main() {
 		return
 	}
 	if len(os.Args) >= 5 && os.Args[1] == "dump" {
-		vn := ""
-		if len(os.Args) > 5 {
-			vn = os.Args[5]
+		vn, spec := "", ""
+		for _, t := range os.Args[5:] {
+			if strings.HasPrefix(t, "cfg=") {
+				spec = t[4:]
+			} else {
+				vn = t
+			}
 		}
-		b := buildOnce(os.Args[2], os.Args[3], vn)
+		b := buildOnce(os.Args[2], os.Args[3], vn, spec)
 		os.WriteFile(os.Args[4]+".wat", b.wat, 0o644)
 		os.WriteFile(os.Args[4]+".wasm", b.wasm, 0o644)
+		os.WriteFile(os.Args[4]+".aux", b.aux, 0o644)
 		fmt.Println(b.status)
 		return
 	}
@@ -238,13 +343,10 @@ func main() {
 		if len(f) < 2 {
 			return "bad-op"
 		}
-		vn := ""
-		if len(f) > 2 {
-			vn = f[2]
-		}
-		first := buildOnce(f[0], f[1], vn)
+		kind, path, vn, spec := splitLine(f)
+		first := buildOnce(kind, path, vn, spec)
 		for i := 1; i < n; i++ {
-			b := buildOnce(f[0], f[1], vn)
+			b := buildOnce(kind, path, vn, spec)
 			if b.status != first.status {
 				return fmt.Sprintf("DIFF status %d 0 %s %s", i, hex.EncodeToString([]byte(first.status+" "+first.msg)), hex.EncodeToString([]byte(b.status+" "+b.msg)))
 			}
@@ -255,10 +357,14 @@ func main() {
 			if string(b.wasm) != string(first.wasm) {
 				return fmt.Sprintf("DIFF wasm %d %d %s %s", i, firstDiffByte(first.wasm, b.wasm), "-", "-")
 			}
+			if string(b.aux) != string(first.aux) {
+				ln, x, y := firstDiffLine(first.aux, b.aux)
+				return fmt.Sprintf("DIFF aux %d %d %s %s", i, ln, vh.Hex([]byte(x)), vh.Hex([]byte(y)))
+			}
 		}
 		if first.status != "ok" {
 			return "err " + first.status + " " + hex.EncodeToString([]byte(first.msg))
 		}
-		return fmt.Sprintf("same %s %s %d %d", sha(first.wat), sha(first.wasm), len(first.wat), len(first.wasm))
+		return fmt.Sprintf("same %s %s %s %d %d", sha(first.wat), sha(first.wasm), sha(first.aux), len(first.wat), len(first.wasm))
 	})
 }
